@@ -48,6 +48,19 @@ PROPS = {
                                      'a codec may refuse to seek (-1 with error): then only position coherence is asserted'],
         floor={'quick': 300, 'thorough': 1000},
     ),
+    'C08': dict(
+        runs=[dict(src='c08_rdwr_model.c')],
+        level='exploration',
+        rule=('case = a set of SFM_RDWR histories on one (container, sample-granular encoding, channels, route vio|path, start empty|5 frames): '
+              'either ALL histories of depth d over the 44-op alphabet {W1,W3,R1,R3, seek x {SET,CUR,END} x {plain,|SFM_READ,|SFM_WRITE} x {0,-1,+2,F}, '
+              'truncate, update-header, close+re-open} that begin with a given op (d=3 on 5 representative formats, d=2 on all; thorough d=4), or a '
+              'random walk of 40 ops. Each op is checked against an executable sequential model with unique frame ids; positions via the read-only hook; '
+              'final file re-opened read-only. distinct = hash(op sequence, format, ch, route, start)'),
+        assumptions=COMMON_ASSUME + ['formats that open SFM_RDWR are found by trying; block-packed PAF-24/SDS are outside the property (not sample granular)',
+                                     'plain SEEK_CUR while rp != wp: either base is accepted (docs ambiguous); frames in a gap created by writing past the end are unspecified',
+                                     'SFC_FILE_TRUNCATE is exercised on the path route only (virtual I/O has no truncate callback)'],
+        floor={'quick': 500, 'thorough': 1000},
+    ),
 }
 
 NOT_APPLICABLE = {}
